@@ -14,9 +14,10 @@
 (* Every complete behaviour prints one REPLAY line (input, settings,       *)
 (* predicted output) which the harness executes on the real library.       *)
 (***************************************************************************)
-EXTENDS Algo, Builder, TLC, Json
+EXTENDS Algo, Builder, TLC, Json, Randomization
 
-CONSTANTS MaxLen, MaxSize, NAtoms, DevFinals
+CONSTANTS MaxLen, MaxSize, NAtoms, DevFinals,
+          Sampled     \* TRUE: inputs are drawn at random (tlc -simulate) instead of enumerated
 
 Dev == [widen |-> TRUE, finals |-> DevFinals]
 
@@ -32,13 +33,15 @@ VARIABLES pc, T, cfg, tcs, trie, min, e1, final, out,
 vars == <<pc, T, cfg, tcs, trie, min, e1, final, out, ord, A, B, n>>
 elim == <<ord, A, B, n>>
 
-NoG == [n |-> 1, es |-> <<>>, fin |-> {}, init |-> 0]
+NoG == [n |-> 1, es |-> <<>>, fin |-> {}, alpha |-> {}, init |-> 0]
 Init == /\ pc = "input" /\ T = {} /\ cfg = DefaultCfg /\ tcs = <<>>
         /\ trie = NoG /\ min = NoG /\ e1 = XNone /\ final = XNone /\ out = ""
         /\ ord = <<>> /\ A = <<>> /\ B = <<>> /\ n = 0
 
 DoChoose == /\ pc = "input"
-          /\ \E t \in Inputs, c \in Cfgs : T' = t /\ cfg' = c
+          /\ (IF Sampled
+              THEN \E c \in Cfgs : (cfg' = c /\ T' = RandomSubset(RandomElement(1 .. MaxSize), Words))
+              ELSE \E t \in Inputs, c \in Cfgs : (T' = t /\ cfg' = c))
           /\ pc' = "sort" /\ UNCHANGED <<tcs, trie, min, e1, final, out, elim>>
 DoSort == /\ pc = "sort" /\ tcs' = SortTcs(T)
         /\ pc' = "trie" /\ UNCHANGED <<T, cfg, trie, min, e1, final, out, elim>>
